@@ -95,12 +95,27 @@ def placeholders(doc):
     return sorted(out)
 
 
-def materialise(doc, paths):
+def _sub_dirs(s, dirs, back=False):
+    """`@D<i>` <-> the real directory of witness i inside a string (PATH values)"""
+    for i, d in sorted(dirs.items(), key=lambda kv: -len(kv[1])):
+        s = s.replace(d, f"@D{i}") if back else s.replace(f"@D{i}", d)
+    return s
+
+
+def materialise(doc, paths, dirs=None):
     doc = json.loads(json.dumps(doc))
     for sc in (doc.get("mcpServers") or {}).values():
-        if isinstance(sc, dict) and isinstance(sc.get("command"), str) and sc["command"].startswith("@W"):
+        if not isinstance(sc, dict):
+            continue
+        if isinstance(sc.get("command"), str) and sc["command"].startswith("@W"):
             sc["command"] = paths[int(sc["command"][2:])]
+        if dirs and isinstance(sc.get("env"), dict):
+            sc["env"] = {k: (_sub_dirs(v, dirs) if isinstance(v, str) else v) for k, v in sc["env"].items()}
     return doc
+
+
+def canon_env(env, dirs):
+    return {k: _sub_dirs(v, dirs, back=True) for k, v in env.items()} if dirs else env
 
 
 def _decode(b: bytes) -> str:
@@ -205,27 +220,34 @@ def run_case(case):
     """Execute one case against the real code.  JSON-able observation, no paths, no pids."""
     from chuk_mcp.mcp_client.host.environment import get_default_environment
 
-    obs = {"launches": [], "raised": None, "ret": None, "hang": False, "default_env": dict(get_default_environment())}
+    obs = {"launches": [], "raised": None, "ret": None, "hang": False, "default_env": {}}
     tmp = tempfile.mkdtemp(prefix="verif-c20-")
     wdirs = {}
+    host_path = os.environ.get("PATH")
     try:
         doc = case.get("doc")
         paths = {}
+        bare = case.get("bare") or {}
         if isinstance(doc, dict):
-            for i in placeholders(doc):
+            # `@W<i>`: a witness named by its path; bare: copies of one witness NAME in several directories,
+            # some of them on the host process's PATH, some named in configured PATH values (`@D<i>`)
+            for i in sorted(set(placeholders(doc)) | set(bare.get("dirs", []))):
                 d = os.path.join(tmp, f"w{i}")
                 os.mkdir(d)
-                p = os.path.join(d, "witness")
+                p = os.path.join(d, bare["name"] if i in bare.get("dirs", []) else "witness")
                 with open(p, "w") as f:
                     f.write(WITNESS % {"py": sys.executable})
                 os.chmod(p, 0o755)
                 wdirs[i] = d
                 paths[i] = p
+        if bare.get("host"):
+            os.environ["PATH"] = ":".join([wdirs[i] for i in bare["host"]] + ([host_path] if host_path else []))
+        obs["default_env"] = dict(get_default_environment())
         cfg_path = os.path.join(tmp, "config.json")
         kind = case["file"]
         if kind == "ok":
             with open(cfg_path, "w") as f:
-                json.dump(materialise(doc, paths), f, ensure_ascii=True)
+                json.dump(materialise(doc, paths, wdirs), f, ensure_ascii=True)
         elif kind == "invalid":
             with open(cfg_path, "w", encoding="utf-8") as f:
                 f.write(case["text"])
@@ -252,12 +274,19 @@ def run_case(case):
         if "exc" in box:
             obs["raised"] = exc_obs(box["exc"])
         obs["launches"], _ = read_records(wdirs)
+        for l in obs["launches"]:
+            l["env"] = canon_env(l["env"], wdirs)
+        obs["default_env"] = canon_env(obs["default_env"], wdirs)
+        if isinstance(obs.get("ret"), dict) and isinstance(obs["ret"].get("env"), dict):
+            obs["ret"]["env"] = canon_env(obs["ret"]["env"], wdirs)
         # the loader's returned command, back to its placeholder
         if isinstance(obs.get("ret"), dict) and "command" in obs["ret"]:
             for i, p in paths.items():
                 if obs["ret"]["command"] == p:
                     obs["ret"]["command"] = f"@W{i}"
     finally:
+        if host_path is not None:
+            os.environ["PATH"] = host_path
         kill_strays(wdirs)
         shutil.rmtree(tmp, ignore_errors=True)
     return obs
